@@ -354,4 +354,35 @@ Section Main.
     rewrite <- (Zmult_mod_idemp_l (prod_mx C m x 1)). unfold q at 3. rewrite (prod_mx_spec C x m 1). fold q.
     rewrite Zmult_mod_idemp_r, Zmult_mod_idemp_l. f_equal. ring.
   Qed.
+  (* the honest prover never fails: the premise "skc_prove ... = Some t" of skc_complete is satisfiable for every honest input *)
+  Theorem skc_prove_total pi r m raws :
+    (2 <= length m)%nat -> (length m <= length (pc_g C))%nat -> Permutation pi (seq 0 (length m)) ->
+    exists t mus, permuted pi m = Some mus /\ skc_prove H C l pi r m raws = Some t.
+  Proof.
+    intros Hn Hg P.
+    assert (Lpi : length pi = length m) by (apply Permutation_length in P; now rewrite seq_length in P).
+    assert (Hperm : exists mus, permuted pi m = Some mus).
+    { assert (R : Forall (fun j => (j < length m)%nat) pi).
+      { apply Forall_forall. intros j I. eapply Permutation_in in I; [|exact P]. apply in_seq in I. lia. }
+      clear -R. induction pi as [|j pi IH]; [now exists []|]. inversion R as [|? ? Hj Rr]; subst. destruct (IH Rr) as [t Et].
+      destruct (nth_error m j) as [v|] eqn:Ev; [|apply nth_error_None in Ev; lia].
+      exists (v :: t). cbn [permuted]. now rewrite Ev, Et. }
+    destruct Hperm as [mus Hperm].
+    unfold skc_prove. fold q. rewrite Lpi.
+    destruct (Nat.ltb_spec (length (pc_g C)) (length m)) as [|_]; [lia|].
+    rewrite Nat.eqb_refl. cbn [negb]. destruct (Nat.ltb_spec (length m) 2) as [|_]; [lia|].
+    rewrite Hperm. cbv zeta.
+    set (n := length m) in *. set (d := coin_d C raws). set (Delta := coin_Delta C raws n). set (idx := seq 0 n).
+    assert (Lidx : length idx = n) by apply seq_length.
+    assert (Rd : forall i, 0 <= d i < q) by (intros i; apply Z.mod_pos_bound; exact Hq).
+    rewrite (commit_by_spec C WF) by
+      (try (apply Z.mod_pos_bound; exact Hq); try (rewrite map_length; lia); apply Forall_map_seq; exact Rd).
+    rewrite (commit_by_spec C WF);
+      [|apply Z.mod_pos_bound; exact Hq| |rewrite map_length; lia].
+    2:{ apply Forall_map_seq. intros i. unfold lej1. fold q. destruct (S i <? n)%nat; [apply Z.mod_pos_bound; exact Hq|lia]. }
+    rewrite (commit_by_spec C WF);
+      [|apply Z.mod_pos_bound; exact Hq| |rewrite map_length; lia].
+    2:{ apply Forall_map_seq. intros i. unfold lej2. fold q. destruct (S i <? n)%nat; [apply Z.mod_pos_bound; exact Hq|lia]. }
+    eexists. exists mus. split; [reflexivity|reflexivity].
+  Qed.
 End Main.
